@@ -214,7 +214,9 @@ Check ==
 \* (retry, another path).  BlockList.grade_blocks since the repair of the second write: before the first block is graded
 \* again, every propagated direction forgets what the earlier grade() copied from its neighbours - chops and wire gradings,
 \* calculated with the lengths of that time (resetting each direction only when its own turn came let a block copy what its
-\* neighbour still held); the user-chopped directions empty their gradings themselves when they are graded (ChopGrade).
+\* neighbour still held) - and the user-chopped directions empty their gradings as well (left defined until their own turn,
+\* they were copied, inverted, by a neighbour and handed on around an edge shared by three blocks): after the reset nothing
+\* is defined, as in a freshly assembled mesh.
 \* At the pinned commit ("shipped") everything is left as it was.  OutcomeOK holds for the second attempt as for the first.
 Regrade ==
     /\ phase = "done" /\ round < Rounds
@@ -223,9 +225,10 @@ Regrade ==
     /\ updated' = FALSE /\ passes' = 0 /\ outcome' = "none"
     /\ IF Variant = "fixed"
        THEN /\ chops' = uchops
-            /\ wg' = [n \in Nodes |-> IF IsChopMgr(n) THEN wg[n] ELSE [i \in 1..4 |-> <<>>]]
-       ELSE UNCHANGED <<chops, wg>>
-    /\ UNCHANGED <<cfgvars, axg>>
+            /\ wg' = [n \in Nodes |-> [i \in 1..4 |-> <<>>]]
+            /\ axg' = [n \in Nodes |-> <<>>]
+       ELSE UNCHANGED <<chops, wg, axg>>
+    /\ UNCHANGED cfgvars
 
 Next == GradeStep \/ (\E b \in Blocks : VisitBlock(b)) \/ CopyAxis \/ EndPass \/ Check \/ Regrade
 Done == phase = "done" /\ UNCHANGED vars
